@@ -106,6 +106,14 @@ def oracle(tr):
                         copies = [k for k, l in enumerate(got) if hexname(fld(l, "sender")) == sname and fld(l, "ser") == ser and fld(l, "t") == t
                                   and hexname(fld(l, "dest")) == n]
                         errs = [l for l in per.get(conn, []) if fld(l, "t") == "3" and fld(l, "rs") == ser and hexname(fld(l, "sender")) == BUS]
+                        twins = len([1 for (c2, s2, t2, a2, n2) in w["msgs"] if c2 == conn and s2 == ser and a2 and t2 == t])
+                        if twins > 1:
+                            # the sender used one serial for several held messages: they cannot be told apart; each has one outcome
+                            # (the second call of a serial that is outstanding again is refused)
+                            if len(copies) + len(errs) != twins:
+                                bad.append((None, "step %d: %s taken by connection %d: %d held messages %s#%s were delivered %d times and earned %d errors"
+                                            % (i, n, owner, twins, sname, ser, len(copies), len(errs))))
+                            continue
                         if len(copies) == 1 and not errs:
                             seq.append(copies[0]); stats["held_delivered"] += 1
                         elif len(copies) == 0 and len(errs) == 1:
